@@ -116,7 +116,13 @@ class Target:
     def bounds_dict(self):
         """prior_bounds for Aspire, written in REVERSE parameter order (bounds belong to parameters by name, not by position)."""
         lo, hi = self.box_bounds()
-        return {f"x_{i}": (float(lo[i]), float(hi[i])) for i in reversed(range(self.dims))}
+        return {pname(i): (float(lo[i]), float(hi[i])) for i in reversed(range(self.dims))}
+
+    def _names_ok(self, samples):
+        want = getattr(self, "expect_names", None)
+        if want is None or not hasattr(samples, "parameters"):
+            return True
+        return list(samples.parameters or []) == want
 
     def _tick(self):
         k = self.ncalls
@@ -127,7 +133,7 @@ class Target:
     def log_prior(self, samples):
         self._tick()
         x = self._x(samples)
-        self.calls.append(("prior", len(x), None))
+        self.calls.append(("prior", len(x), None, self._names_ok(samples)))
         if self.answers_in is not None:       # a user model that answers in its own precision (NumPy), whatever was requested
             return np.asarray(self.Pi(x), dtype=self.answers_in)
         return samples.xp.asarray(self.Pi(x), dtype=samples.dtype) if hasattr(samples, "xp") else self.Pi(x)
@@ -138,7 +144,7 @@ class Target:
         lp = samples.log_prior
         ok = lp is not None and np.allclose(np.asarray(nsutil.to_list(lp), dtype=float), self.Pi(x), rtol=1e-5, atol=1e-5, equal_nan=True) \
             and len(np.atleast_1d(np.asarray(nsutil.to_list(lp)))) == len(x)
-        self.calls.append(("lik", len(x), bool(ok)))
+        self.calls.append(("lik", len(x), bool(ok), self._names_ok(samples)))
         if self.answers_in is not None:
             return np.asarray(self.L(x), dtype=self.answers_in)
         return samples.xp.asarray(self.L(x), dtype=samples.dtype)
@@ -265,9 +271,17 @@ class Recorder:
         self._undo = []
 
 
+PNAMES = ["mass", "spin", "chi", "tilt", "phase", "incl"]       # names a user gives: not the defaults x_0.., not alphabetical
+
+
+def pname(i):
+    return PNAMES[i]
+
+
 def make_aspire(target, flow, xp, dtype, dims, **kw):
     from aspire import Aspire
-    params = [f"x_{i}" for i in range(dims)]
+    params = [pname(i) for i in range(dims)]
+    target.expect_names = list(params)       # every sample set handed to the user's functions carries the user's names
     return Aspire(log_likelihood=target.log_likelihood, log_prior=target.log_prior, dims=dims, parameters=params,
                   flow=flow, xp=xp, dtype=dtype, **kw)
 
@@ -357,7 +371,7 @@ def aspire_sample(kind, nsname, dims, N, seed, pre=None, pkw=None, opt=None, pri
     if opt.get("bounds"):
         akw["prior_bounds"] = tgt.bounds_dict()
     if opt.get("periodic"):
-        akw["periodic_parameters"] = ["x_0"]
+        akw["periodic_parameters"] = [pname(0)]
     a = make_aspire(tgt, flow, xp, dt, dims, **akw)
     emcee.reset_counter(seed % 997)
     kw = dict(sample_kwargs or {})
